@@ -137,6 +137,54 @@ def _one(item):
     return verdict(item, rep, design)
 
 
+def _pair(item):
+    """Two slices of one signal, with the same lowest and highest bit but another stride or direction, connected in one
+    module: each must select its own bits (or the design be refused)."""
+    import hdl21 as h
+    from ..build import build
+
+    W, ia, ib = item
+    bits = list(range(W))
+    sa, sb = bits[slice(*ia)], bits[slice(*ib)]
+    design = top_design(W, sig(f"a{W}"), ia, len(sa))
+    top = design["modules"]["Top"]
+    design["exts"][f"U{len(sb)}"] = ext_leaf([("a", len(sb))])
+    top["decls"] = list(top["decls"]) + [("inst", "u2", ("ext", f"U{len(sb)}", {"k": 5}), [("a", ("rng", sig(f"a{W}"), ib[0], ib[1], ib[2]))])]
+    try:
+        pkg = h.to_proto(build(design).top)
+    except Exception as e:
+        return None  # refused: allowed for non-unit strides
+    try:
+        odev, opart = observe.O_pkg(pkg, design)
+        rdev, rpart = refsem.R(design)
+    except Exception as e:
+        return "package of a two-slice design cannot be read: " + short_exc(e)
+    if opart != rpart or observe.devices_agree(rdev, odev):
+        return f"a[{ia}] and a[{ib}] of a {W}-bit signal in one module: exported bits differ from Python's selections {sa} and {sb}"
+    return None
+
+
+def pair_items(W):
+    """All ordered pairs of distinct selections (one spelling each) that share their lowest and highest bit."""
+    bits = list(range(W))
+    reps = {}
+    for index in indices(W):
+        if isinstance(index, int):
+            continue
+        try:
+            sel = tuple(bits[slice(*index)])
+        except Exception:
+            continue
+        if len(sel) >= 2 and all(b is None or -W <= b <= W for b in index[:2]):
+            reps.setdefault(sel, index)
+    out = []
+    for sa, ia in reps.items():
+        for sb, ib in reps.items():
+            if sa != sb and min(sa) == min(sb) and max(sa) == max(sb):
+                out.append((W, ia, ib))
+    return out
+
+
 def verdict(item, rep, design):
     """None if the property holds on this case, else (signature, detail)."""
     W, pk, pexpr, pclass, index = item
@@ -189,6 +237,12 @@ def run(ctx):
         if viol:
             sig_, case, bad = viol
             ctx.violation(sig_, case, bad)
+    pitems = [it for W in range(2, Wmax + 1) for it in pair_items(W)]
+    for it, bad in zip(pitems, ctx.pmap(_pair, pitems, chunk=50)):
+        ctx.count(states=1, transitions=3, traces_validated_against_impl=1)
+        ctx.fam("two_slices_one_module", cases=1)
+        if bad:
+            ctx.violation(dict(parent="signal", index="two slices", cls="raise_or_correct", what="two slices of one signal in one module"), dict(pair=[it[0], list(it[1]), list(it[2])]), bad)
     for k in (0, len(items) // 3, len(items) - 1):
         ctx.sample(dict(W=items[k][0], parent=items[k][1], index=items[k][4]))
     ctx.assume("oracle = Python list indexing; non-unit steps and bounds beyond [-W,W] are judged raise-or-correct as the statement allows")
@@ -196,6 +250,10 @@ def run(ctx):
 
 def replay(body):
     c = body["case"]
+    if "pair" in c:
+        r = _pair((c["pair"][0], tuple(c["pair"][1]), tuple(c["pair"][2])))
+        print("replay:", r or "holds")
+        return 1 if r else 0
     idx_ = c["index"] if isinstance(c["index"], int) else tuple(c["index"])
     pclass = "nonunit" if c["parent"].startswith("slice_of_") else "unit"
     v, outcome, cls = _one((c["W"], c["parent"], tuplify(c["parent_expr"]), pclass, idx_))
